@@ -18,6 +18,8 @@
 //	mode W F P            File.Mode(), optionally parking at p = File.Mode:rlocked (between the lock and GetNode)
 //	mtime W F P           File.ModTime(), same
 //	chmod W F M [l]       File.SetMode(M), optionally parking after a directory's local update (updateChildEntry:localDone)
+//	touch W F | fflush W F | fsync W F | rootflush W | lsnames W | size W | fdread W
+//	                      mfs.Touch, File.Flush, File.Sync, Root.Flush, ListNames of /d, descriptor Size, Seek+CtxReadFull
 //	lschmod W F M         ForEachEntry of F's directory whose callback starts SetMode(M) on F in another goroutine
 package main
 
@@ -424,6 +426,7 @@ func exec(c vh.Case, o *vh.Out) {
 	catCheck := make([]func(got string), nWorkers)
 	modeParked := -1 // worker parked inside Mode/ModTime
 	chmodBlocked := false
+	touchN := 0
 	chmodW := -1 // worker whose SetMode is under way (parked, blocked or inside lschmod)
 	// monitor bookkeeping (the property's own notions, independent of the model)
 	acked := []string{"0000", "0000", "0000"} // content of the last acknowledged write per file
@@ -481,6 +484,10 @@ func exec(c vh.Case, o *vh.Out) {
 			}
 			data := []byte(fmt.Sprintf("%04d", vh.Atoi(f[2])%10000))
 			e.start(w, "", func() string {
+				if data[3]%2 == 1 { // odd tokens go through WriteAt, even ones through Seek+Write
+					_, err := w.fd.WriteAt(data, 0)
+					return errStr(err)
+				}
 				if _, err := w.fd.Seek(0, io.SeekStart); err != nil {
 					return "err"
 				}
@@ -659,11 +666,96 @@ func exec(c vh.Case, o *vh.Out) {
 				}
 			}
 			chmodW = w.id
-			e.start(w, pk, func() string { return errStr(e.file(fi).SetMode(os.FileMode(m))) })
+			e.start(w, pk, func() string { return errStr(mfs.Chmod(e.root, paths[fi], os.FileMode(m))) })
 			o.Kind("chmod")
 			if pk != "" {
 				o.Kind("chmod-parked")
 			}
+		case "touch":
+			w, fi := wIdx(1), vh.Atoi(f[2])
+			if busyW(w) || anyFd() || chmodBlocked || chmodW >= 0 || modeParked >= 0 {
+				res = "refused"
+				break
+			}
+			pend[w.id] = func(ok bool) {
+				if ok {
+					fullAck[fi] = acked[fi]
+				}
+			}
+			chmodW = w.id
+			touchN++
+			ts := time.Unix(1_000_000_000+int64(touchN), 0)
+			e.start(w, "", func() string { return errStr(mfs.Touch(e.root, paths[fi], ts)) })
+			o.Kind("touch")
+		case "fflush", "fsync":
+			w, fi := wIdx(1), vh.Atoi(f[2])
+			if busyW(w) || w.fd != nil || modeParked >= 0 || writerOf(fi) >= 0 || readersOf(fi) > 0 {
+				res = "refused"
+				break
+			}
+			if f[0] == "fflush" {
+				pend[w.id] = func(ok bool) {
+					if ok {
+						fullAck[fi] = acked[fi]
+					}
+				}
+				e.start(w, "", func() string { return errStr(e.file(fi).Flush()) })
+			} else {
+				e.start(w, "", func() string { return errStr(e.file(fi).Sync()) })
+			}
+			o.Kind(f[0])
+		case "rootflush":
+			w := wIdx(1)
+			if busyW(w) || modeParked >= 0 {
+				res = "refused"
+				break
+			}
+			e.start(w, "", func() string { return errStr(e.root.Flush()) })
+			o.Kind("rootflush")
+		case "lsnames":
+			w := wIdx(1)
+			if busyW(w) || modeParked >= 0 {
+				res = "refused"
+				break
+			}
+			e.start(w, "", func() string {
+				n, err := mfs.Lookup(e.root, "/d")
+				if err != nil {
+					return "err"
+				}
+				names, err := n.(*mfs.Directory).ListNames(context.Background())
+				if err != nil {
+					return "err"
+				}
+				sort.Strings(names)
+				return strings.Join(names, ",")
+			})
+			o.Kind("lsnames")
+		case "size", "fdread":
+			w := wIdx(1)
+			if busyW(w) || w.fd == nil || (f[0] == "fdread" && w.fdWrite) {
+				res = "refused"
+				break
+			}
+			isSize := f[0] == "size"
+			e.start(w, "", func() string {
+				if isSize {
+					n, err := w.fd.Size()
+					if err != nil {
+						return "err"
+					}
+					return strconv.FormatInt(n, 10)
+				}
+				if _, err := w.fd.Seek(0, io.SeekStart); err != nil {
+					return "err"
+				}
+				b := make([]byte, 4)
+				if _, err := w.fd.CtxReadFull(context.Background(), b); err != nil {
+					return "err"
+				}
+				return tok(b)
+			})
+			o.Kind(f[0])
 		case "lschmod":
 			// Directory.ForEachEntry of the file's directory; its callback (which runs with the directory lock held)
 			// starts SetMode on the file in another goroutine and waits until that goroutine cannot go on
